@@ -105,7 +105,10 @@ def _reject_bool(obj):
     if isinstance(obj, bool):
         raise TypeError("boolean values cannot be bencoded")
     if isinstance(obj, dict):
-        for val in obj.values():
+        for key, val in obj.items():
+            # dictionary keys are byte strings
+            if not isinstance(key, (str, bytes)):
+                raise TypeError("dictionary keys must be strings")
             _reject_bool(val)
     elif isinstance(obj, (list, tuple)):
         for val in obj:
